@@ -282,7 +282,16 @@ def rule_d1(ctx: Ctx) -> None:
         pass
 
 
+GENERIC_FILES = ['permuta/patterns/meshpatt.py']
+
+
 def variants():
+    from ..selftest import generic_silent
+
+    return _variants() + generic_silent(GENERIC_FILES)
+
+
+def _variants():
     from ..selftest import V, insert_stmt, reformat_only, rename_local, replace_expr, replace_stmt
 
     MP = "permuta/patterns/meshpatt.py"
